@@ -81,6 +81,12 @@ bool drv_it_ne(const It *a, const It *b) { return *a != *b; }
 It *drv_it_inc(It *a) { return &++*a; }
 int *drv_it_deref(const It *a) { return &**a; }
 int *drv_it_arrow(const It *a) { return a->operator->(); }
-int drv_it_postinc(It *a) { auto z = (*a)++; return z._v; }   // storage::operator*/-> do not compile (known: replay/c13_iterator_storage_compile.cpp)
+}
+
+// value carried by the result of a postfix ++ (generator_iterator::storage): read through the member, whatever representation a rewrite gives it
+// (storage::operator* does not compile on the unchanged tree); keeps the driver compilable under such rewrites (seeded change C20-5)
+template<typename S> static decltype(auto) cv_postfix_value(S &z) { if constexpr (requires { *z._v; }) return (*z._v); else return (z._v); }
+extern "C" {
+int drv_it_postinc(It *a) { auto z = (*a)++; return cv_postfix_value(z); }   // storage::operator*/-> do not compile (known: replay/c13_iterator_storage_compile.cpp)
 void drv_sub_range_for(Sub *s) { for (int &v : *s) c16_sink(&v); }
 }
